@@ -34,7 +34,47 @@ def gen_prim(rng):
     rank = rng.randint(0, 4)
     shape = [rng.choice([1, 1, 2, 3, 4]) for _ in range(rank)]
     x = np.asarray([rng.randint(-50, 50) for _ in range(int(np.prod(shape)) if shape else 1)], dtype=np.int64).reshape(shape)
-    k = rng.choice(["reshape", "transpose", "broadcast_to", "diagonal", "concat", "slice", "index", "ewise"])
+    k = rng.choice(["reshape", "transpose", "broadcast_to", "diagonal", "concat", "slice", "index", "ewise", "reduce", "einsum", "matmul", "flip", "roll"])
+    if k == "reduce":
+        if rank < 1:
+            return gen_prim(rng)
+        axes = sorted(rng.sample(range(rank), rng.randint(1, rank)))
+        keep = rng.random() < 0.3
+        f = rng.choice(["sum", "prod", "max", "min"])
+        if f == "prod":
+            x = np.asarray([rng.randint(-3, 3) for _ in range(int(np.prod(shape)) if shape else 1)], dtype=np.int64).reshape(shape)
+        return [x], [{"i": "reduce", "f": f, "x": 0, "axes": axes, "keepdims": keep}], lambda: getattr(np, f)(x, axis=tuple(axes), keepdims=keep)
+    if k == "einsum":
+        labels = rng.sample(range(97, 103), rng.randint(1, 4))
+        sizes = {l: rng.choice([1, 2, 3]) for l in labels}
+        n_ops = rng.randint(1, 3)
+        specs = [rng.sample(labels, rng.randint(1, len(labels))) for _ in range(n_ops)]
+        if rng.random() < 0.2 and len(specs[0]) >= 1:
+            specs[0] = specs[0] + [specs[0][0]]  # repeated label: diagonal
+        used = sorted(set(l for sp in specs for l in sp))
+        out = rng.sample(used, rng.randint(0, len(used)))
+        xs = [np.asarray([rng.randint(-4, 4) for _ in range(int(np.prod([sizes[l] for l in sp])))], dtype=np.int64).reshape([sizes[l] for l in sp]) for sp in specs]
+        spec = ",".join("".join(chr(l) for l in sp) for sp in specs) + "->" + "".join(chr(l) for l in out)
+        return xs, [{"i": "einsum", "spec_in": specs, "spec_out": out, "xs": list(range(n_ops))}], lambda: np.einsum(spec, *xs)
+    if k == "matmul":
+        b = [rng.choice([1, 2, 3]) for _ in range(rng.randint(0, 2))]
+        i_, k_, j_ = (rng.choice([1, 2, 3]) for _ in range(3))
+        bx = [d if rng.random() < 0.7 else 1 for d in b]
+        by = [d if rng.random() < 0.7 else 1 for d in b]
+        mk = lambda s: np.asarray([rng.randint(-4, 4) for _ in range(int(np.prod(s)))], dtype=np.int64).reshape(s)
+        x_, y_ = mk(bx + [i_, k_]), mk(by + [k_, j_])
+        return [x_, y_], [{"i": "matmul", "x": 0, "y": 1}], lambda: np.matmul(x_, y_)
+    if k == "flip":
+        if rank < 1:
+            return gen_prim(rng)
+        axes = sorted(rng.sample(range(rank), rng.randint(1, rank)))
+        return [x], [{"i": "flip", "x": 0, "axes": axes}], lambda: np.flip(x, axis=tuple(axes))
+    if k == "roll":
+        if rank < 1:
+            return gen_prim(rng)
+        axes = [rng.randrange(rank) for _ in range(rng.randint(1, 3))]
+        shifts = [rng.randint(-4, 4) for _ in axes]
+        return [x], [{"i": "roll", "x": 0, "shifts": shifts, "axes": axes}], lambda: np.roll(x, tuple(shifts), axis=tuple(axes))
     if k == "reshape":
         n = int(np.prod(shape)) if shape else 1
         facs = []
@@ -174,23 +214,33 @@ def check_call(ctx, call, backend, args, validate=True):
     if not validate or not ctx.driver_ok:
         return "ok"
     fam = call["family"]
-    if fam not in ("id", "elementwise"):
+    if not (fam in ("id", "elementwise", "dot") or (fam == "reduce" and call["op"] != "logsumexp") or (fam == "preserve_shape" and call["op"] in ("flip", "roll"))):
         return "ok"
     drv = ctx.driver()
     gj, _ = graphcap.graph_to_json(rec["post"])
     ei, eo = solved
-    r = drv.ask({"kind": "validate", "graph": gj, "family": fam, "op": call["op"], "exprs_in": ei, "exprs_out": eo})
+    req = {"kind": "validate", "graph": gj, "family": fam, "op": call["op"], "exprs_in": ei, "exprs_out": eo}
+    if call["op"] == "roll":
+        sh = call["kwargs"]["shift"]
+        req["shifts"] = list(sh) if isinstance(sh, tuple) else [sh]
+    r = drv.ask(req)
     ctx.count(f"validate:{fam}:{r['verdict']}")
     if r["verdict"] == "accepted":
         ctx.extra["graphs_validated"] = ctx.extra.get("graphs_validated", 0) + 1
     elif r["verdict"] in ("rejected", "denote-error"):
         ctx.tie_broken("validator:traced-graph", f"{sig_of(call, b)}: {json.dumps(r)[:600]}\ncode:\n{rec['code']}")
     # cross-check the Lean denotation against the Python oracle on this input (machinery self-check)
-    if fam == "id" or call["op"] in ("add", "subtract", "multiply", "maximum", "minimum"):
-        d = drv.ask({"kind": "denote", "family": fam, "op": call["op"], "exprs_in": ei, "exprs_out": eo, "inputs": [tens(a) for a in args]})
+    if fam in ("id", "dot") or call["op"] in ("add", "subtract", "multiply", "maximum", "minimum", "sum", "prod", "max", "min", "flip", "roll"):
+        dreq = {"kind": "denote", "family": fam, "op": call["op"], "exprs_in": ei, "exprs_out": eo, "inputs": [tens(a) for a in args]}
+        if "shifts" in req:
+            dreq["shifts"] = req["shifts"]
+        d = drv.ask(dreq)
         if "ok" in d:
-            got = [np.asarray(t["data"], dtype=np.int64).reshape(t["shape"]) for t in d["ok"]]
-            if not all(np.array_equal(a, b_) for a, b_ in zip(got, exp)):
+            got = [np.asarray(t["data"], dtype=object).reshape(t["shape"]) for t in d["ok"]]
+            exp = [np.asarray(e).astype(object) for e in exp]
+            # numpy's int64 arithmetic wraps modulo 2**64, the model's integers are exact
+            wrap = lambda a: [int(v) % 2 ** 64 for v in np.asarray(a, dtype=object).reshape(-1)]
+            if not all(a.shape == b_.shape and wrap(a) == wrap(b_) for a, b_ in zip(got, exp)):
                 raise core.MachineryError(f"Lean denotation and Python oracle disagree on {sig_of(call, b)}")
         elif "err" in d:
             raise core.MachineryError(f"Lean denotation fails on a call the oracle handles: {sig_of(call, b)}: {d}")
